@@ -1,6 +1,7 @@
 import SoxrModel.Cr.Model
 import SoxrModel.Cr.Wf
 import SoxrModel.Cr.Time
+import SoxrModel.Cr.Shift
 /-! Line-protocol driver for the constant-rate count model (`soxrmodel cr < ops`).  One op per line in, one canonical
     line out; the harness diffs these lines with what the real code printed. -/
 namespace Soxr.Cr.Driver
@@ -120,6 +121,11 @@ def step (d : DSt) (line : String) : DSt × Option String :=
     let wf := decide (∀ x ∈ d.lplan, StageWF x.cfg x.s0)
     (d, some (s!"TIME lat={if decide (PlanLatOK true d.lplan) then 2 else if decide (PlanLatOK false d.lplan) then 1 else 0} off={off.num}/{off.den} rate={rate.num}/{rate.den}" ++
       s!" early={if wf && decide (PlanEarlyOK d.lplan) then 1 else 0} earlyg={if wf && decide (PlanEarlyGen d.lplan) then 1 else 0} marg={marg.num}/{marg.den} post={if decide (rate / 2 ≤ 1 + off + marg) then 1 else 0}"))
+  | ["cr.period"] =>
+    -- `planShift` of Cr/Shift.lean on the fresh plan: only a shift that `chain` (the hypothesis of `chain_sound`) accepts is printed
+    match planShift 200000 (d.lplan.map fun x => (x.cfg, x.s0)) with
+    | none => (d, some "PERIOD none")
+    | some (din, dout, hor) => (d, some s!"PERIOD in={din} out={dout} hor={hor}")
   | ["cr.delay"] => (d, some s!"DELAY {delayBits d}")
   | "cr.proc" :: hasIn :: flushReq :: useIdone :: ilen0 :: olen :: script =>
     match d.api.process (num d) d.fuel (hasIn == "1") (flushReq == "1") (useIdone == "1")
